@@ -615,10 +615,11 @@ def run_tree_job(job, body, site_default='diff', path_wall_s=20, tick_cap=40000,
         return out
 
     st = explore(fn, on_path, budget_s=job.get('budget', budget), tick_cap=tick_cap, path_wall_s=job.get('path_wall_s', path_wall_s),
-                 max_fail=max_fail)
+                 max_fail=max_fail, **common.split_args(job))
     st['samples'] = samples
     st['extra'] = counters
-    st['twin_reached'] = counters['oracle_reached'] > 0      # reachability: the oracle's final assertion point was reached
+    if job.get('_stop_depth') is None and not job.get('_prefix'):
+        st['twin_reached'] = counters['oracle_reached'] > 0      # reachability: the oracle's final assertion point was reached
     return dict(st)
 
 
@@ -797,8 +798,8 @@ def tree_jobs(tier, want=None, extra=None, skip=None):
 
 
 KNOWN_DUP_JOBS = [
-    dict(fam='mset-dups-32', A=('mset', ileaves(3, 'a'), 'dups'), B=('mset', ileaves(2, 'a'), 'dups'), weight=50, path_wall_s=6, replay_wall=6),
-    dict(fam='mset-dups-22', A=('mset', ileaves(2, 'c'), 'dups'), B=('mset', ileaves(2, 'c'), 'dups'), weight=50, path_wall_s=6, replay_wall=6),
+    dict(fam='mset-dups-32', A=('mset', ileaves(3, 'a'), 'dups'), B=('mset', ileaves(2, 'a'), 'dups'), weight=50, path_wall_s=6, replay_wall=6, region_job=True),
+    dict(fam='mset-dups-22', A=('mset', ileaves(2, 'c'), 'dups'), B=('mset', ileaves(2, 'c'), 'dups'), weight=50, path_wall_s=6, replay_wall=6, region_job=True),
 ]
 
 
